@@ -222,6 +222,69 @@ theorem capChoice_spec (L : Nat) :
   · simp [h4, Rand.All]
   · simp [h1, h2, h3, h4, Rand.All]
 
+/-- What a capitalisation function may look like under each scheme (the conclusion of
+`capChoice_spec`, named). -/
+def SchemeOK (scheme : String) (L : Nat) (caps : Nat → Bool) : Prop :=
+  (scheme = "first" → ∀ i, caps i = true ↔ i = 0) ∧
+  (scheme = "all" → ∀ i, caps i = true ↔ i < L) ∧
+  (scheme = "one" → ∃ w, w < L ∧ ∀ i, caps i = true ↔ i = w) ∧
+  (scheme ≠ "first" → scheme ≠ "all" → scheme ≠ "one" → scheme ≠ "random" → ∀ i, caps i = false)
+
+/-- **C05 for the whole generator, on every random stream.** Whatever `Generate` returns is a
+well-shaped token sequence for some capitalisation function the scheme allows: exactly `Length`
+atoms, each a word of the list or — exactly at the selected positions — its title-cased form;
+one separator token between neighbours exactly when that separator is non-empty; never a
+leading, trailing or doubled separator (`shaped_atoms`, `shaped_no_edge_sep`). -/
+theorem generate_structure (wl : WordList) (hl : r.list = some wl)
+    (hne : ∀ w ∈ wl.words, w ≠ [] ∧ title w ≠ []) :
+    Rand.All (fun res => ∀ p, res = Res.ok p →
+        ∃ caps, SchemeOK r.capitalize r.length.toNat caps ∧
+          Shaped title wl.words caps r.length.toNat 0 r.length.toNat p.tokens)
+      (WLRecipe.generate cfg title r) := by
+  unfold WLRecipe.generate
+  simp only [hl]
+  split
+  · simp [Rand.All]
+  · split
+    · simp [Rand.All]
+    · apply Rand.All_bind _ _ (capChoice_spec r r.length.toNat)
+      intro caps hcaps
+      apply Rand.All_bind _ _ (body_shaped cfg title r wl.words caps r.length.toNat hne r.length.toNat 0)
+      intro toks hshape
+      apply Rand.All_bind_true
+      intro d
+      simp only [Rand.All]
+      intro p hp
+      injection hp with hp
+      subst hp
+      exact ⟨caps, hcaps, hshape⟩
+
+/-- The same for a concrete run on a concrete tape of raw words. -/
+theorem generate_structure_run (wl : WordList) (hl : r.list = some wl)
+    (hne : ∀ w ∈ wl.words, w ≠ [] ∧ title w ≠ []) (tape rest : List Nat) (p : Password)
+    (h : (WLRecipe.generate cfg title r).run tape = .done (.ok p) rest) :
+    ∃ caps, SchemeOK r.capitalize r.length.toNat caps ∧
+      Shaped title wl.words caps r.length.toNat 0 r.length.toNat p.tokens :=
+  Rand.run_All _ tape _ rest (generate_structure cfg title r wl hl hne) h p rfl
+
+/-- **Every generated atom is a word of the list or its title-cased form** (C10's last clause). -/
+theorem atoms_from_list (words : List Word) (caps : Nat → Bool) (L n i : Nat) (toks : List (Token Nat))
+    (h : Shaped title words caps L i n toks) :
+    ∀ a ∈ Tokens.ofType atomType toks, ∃ w ∈ words, a = w ∨ a = title w := by
+  obtain ⟨js, hlen, hlt, hat⟩ := shaped_atoms title words caps L n i toks h
+  intro a ha
+  rw [hat] at ha
+  obtain ⟨k, hk, rfl⟩ := List.getElem_of_mem ha
+  simp only [List.length_zipWith, List.length_range, hlen, Nat.min_self] at hk
+  simp only [List.getElem_zipWith, List.getElem_range]
+  have hj : js[k] < words.length := hlt _ (List.getElem_mem _)
+  refine ⟨words[js[k]], List.getElem_mem hj, ?_⟩
+  unfold wordAt
+  rw [List.getD_eq_getElem?_getD, List.getElem?_eq_getElem hj]
+  split
+  · right; rfl
+  · left; rfl
+
 /-- `String()` is the concatenation of the token values in order; `Atoms()` and `Separators()`
 are the values of the respective type, in order (these are the definitions the model shares
 with the code; stated for reference). -/
